@@ -184,7 +184,19 @@ func (s *Solver) discharge(ob *Obligation, query string, stage int) {
 		}
 		return // undecided so far: stage 2 will race all solvers
 	}
-	// stage 2: race all solvers
+	// stage 2: a goal that is a conjunction is first tried conjunct by conjunct (and path by path) - when the whole did
+	// not go through in stage 1 this is usually what works, and it is cheaper than waiting for the race to time out
+	if !ob.Cover && ob.split == nil && len(splitConj(ob.Goal)) > 1 {
+		s.buildSplit(ob)
+		if len(ob.split) > 0 && s.splitDischarge(ob) {
+			os.MkdirAll(filepath.Dir(cacheFile), 0o755)
+			os.WriteFile(cacheFile, []byte(want+" split\n"), 0o644)
+			os.Remove(file)
+			return
+		}
+		ob.split = []string{} // tried: do not repeat after the race
+	}
+	// race all solvers
 	type r struct {
 		res, solver, out string
 		el               float64
@@ -233,18 +245,7 @@ func (s *Solver) discharge(ob *Obligation, query string, stage int) {
 	var ag []string
 	// last resort: one query per join path and per top-level conjunct of the goal (built only now: it is costly)
 	if !ob.Cover && ob.split == nil {
-		choices := ob.vc.pathChoices(ob.PC, 24)
-		conj := splitConj(ob.Goal)
-		if choices == nil {
-			choices = []map[string]string{nil}
-		}
-		if len(choices) > 1 || len(conj) > 1 {
-			for _, c := range choices {
-				for _, g := range conj {
-					ob.split = append(ob.split, ob.vc.QueryGoal(ob, c, g))
-				}
-			}
-		}
+		s.buildSplit(ob)
 	}
 	if len(ob.split) > 0 && s.splitDischarge(ob) {
 		os.MkdirAll(filepath.Dir(cacheFile), 0o755)
@@ -260,6 +261,21 @@ func (s *Solver) discharge(ob *Obligation, query string, stage int) {
 		}
 	}
 	ob.Solver = strings.Join(ag, ",")
+}
+
+func (s *Solver) buildSplit(ob *Obligation) {
+	choices := ob.vc.pathChoices(ob.PC, 24)
+	conj := splitConj(ob.Goal)
+	if choices == nil {
+		choices = []map[string]string{nil}
+	}
+	if len(choices) > 1 || len(conj) > 1 {
+		for _, c := range choices {
+			for _, g := range conj {
+				ob.split = append(ob.split, ob.vc.QueryGoal(ob, c, g))
+			}
+		}
+	}
 }
 
 func firstLines(s string, n int) string {
